@@ -366,6 +366,40 @@ def typestate_rules(repo, rep, m):
             rep.violated('R-TYPESTATE', key, where(f, f.node), 'the last line written is not terminated on some path')
         else:
             rep.undecided('R-TYPESTATE', key, where(f, f.node), 'final line state unknown')
+        # every way out of the editor passes the trailer: a `return` met before the %ENDSNX write leaves a truncated (or no) output file
+        trailer = [n for n in ast.walk(f.node) if isinstance(n, ast.Call) and isinstance(n.func, ast.Attribute) and n.func.attr == 'write'
+                   and any(isinstance(c, ast.Constant) and isinstance(c.value, str) and '%ENDSNX' in c.value for c in ast.walk(n))]
+        key = 'R-TYPESTATE::geodepy/gnss.py::%s::<exits>' % name
+        if not trailer:
+            rep.violated('R-TYPESTATE', key, where(f, f.node), '%s never writes the %%ENDSNX trailer' % name, expected="out.write('%ENDSNX\\n')", actual='absent')
+        else:
+            last = max(t.lineno for t in trailer)
+            nested = set()
+            for n in ast.walk(f.node):
+                if isinstance(n, (ast.FunctionDef, ast.Lambda)) and n is not f.node:
+                    nested.update(id(x) for x in ast.walk(n))
+            early = [n for n in ast.walk(f.node) if isinstance(n, ast.Return) and id(n) not in nested and n.lineno < last]
+            if early:
+                rep.violated('R-TYPESTATE', key, where(f, early[0]), '%s can return at line %d, before the %%ENDSNX trailer (line %d) is written: on that path the output file is '
+                             'truncated or empty - removing nothing still has to write the complete file' % (name, early[0].lineno, last),
+                             expected='every exit after the trailer write', actual=stmt_text(early[0])[:60])
+            else:
+                rep.holds('R-TYPESTATE', key, where(f, trailer[-1]), 'no return precedes the %ENDSNX trailer write')
+    # the block readers and editors read the file every time: a memoised reader (functools cache keyed by the file NAME) returns the old
+    # content after the file has been rewritten - the content is an input that is not in the key
+    memo = []
+    for name, f in sorted(m.functions.items()):
+        decs = [d for d in f.node.decorator_list if any(isinstance(x, (ast.Name, ast.Attribute)) and (getattr(x, 'id', None) or getattr(x, 'attr', None)) in ('lru_cache', 'cache', 'cached', 'memoize')
+                                                         for x in ast.walk(d))]
+        if decs and any(isinstance(n, ast.Call) and getattr(n.func, 'id', '') == 'open' for n in ast.walk(f.node)):
+            memo.append((f, decs[0]))
+    key = 'R-PURE::geodepy/gnss.py::readers::memo'
+    if memo:
+        for f, d in memo:
+            rep.violated('R-PURE', key + '::' + f.name, where(f, d), '%s reads a file and is memoised (`@%s`) by its arguments - the file name: after the file is rewritten (the editors do exactly that) '
+                         'the reader keeps returning the old content' % (f.name, stmt_text(d)[:40]), expected='no cache, or a key that includes the content', actual='@' + stmt_text(d)[:60])
+    else:
+        rep.holds('R-PURE', key, '%s:1' % m.relpath, 'no file-reading function of gnss.py is memoised by file name')
     rep.floor('R-TYPESTATE', 40, 'writes of the three editing functions')
 
 
